@@ -560,6 +560,67 @@ def _e2e(which="all"):
     return bad
 
 
+def e2e_split():
+    out = _e2e_split()
+    return {"ok": not out, "detail": "real rdump.main --split over real files; " + "; ".join(out[:3]), "cex": {"kw": {"bad": out[:5]}}}
+
+
+def _e2e_split():
+    """rdump -w PATH --split COUNT --suffix-length L with real files: the parts, in the order they were opened, each hold at most COUNT
+    records and their concatenation is exactly the selected input - also when more than 10**L parts are needed."""
+    import contextlib
+    import glob
+    import re
+
+    import flow.record.tools.rdump as RD
+    from flow.record import RecordDescriptor, RecordReader, RecordWriter
+
+    logging.disable(logging.CRITICAL)
+    D = RecordDescriptor("test/split", [("varint", "n")])
+    bad = []
+    with tempdir() as d:
+        for total, count, slen, scheme in ((12, 1, 1, ""), (25, 2, 1, ""), (10, 1, 1, ""), (7, 3, 2, ""), (205, 2, 2, ""), (23, 2, 1, "jsonfile://")):
+            src = os.path.join(d, f"in-{total}.records")
+            w = RecordWriter(src)
+            for i in range(total):
+                w.write(D(i))
+            w.flush()
+            w.close()
+            outdir = os.path.join(d, f"out-{total}-{count}-{slen}-{len(scheme)}")
+            os.makedirs(outdir)
+            ext = "json" if scheme else "records"
+            argv = [src, "-w", scheme + os.path.join(outdir, "part." + ext), "--split", str(count), "--suffix-length", str(slen)]
+            try:
+                with contextlib.redirect_stdout(_Out()), contextlib.redirect_stderr(io.StringIO()):
+                    RD.main(argv)
+            except BaseException as e:  # noqa: BLE001
+                bad.append(f"rdump {' '.join(argv[1:])}: raised {type(e).__name__}: {e}")
+                continue
+            parts = glob.glob(os.path.join(outdir, "part.*"))
+
+            def num(p):
+                m = re.search(r"part\.(\d+)\.", os.path.basename(p))
+                return int(m.group(1)) if m else -1
+
+            got = []
+            for p in sorted(parts, key=num):
+                try:
+                    with RecordReader((scheme or "") + p) as rd:
+                        ns = [int(r.n) for r in rd]
+                except Exception as e:  # noqa: BLE001
+                    if os.path.getsize(p) == 0:
+                        continue  # a trailing part without records is C17's known finding K3
+                    bad.append(f"rdump --split {count} --suffix-length {slen} ({total} records): part {os.path.basename(p)} unreadable: {type(e).__name__}: {e}")
+                    ns = []
+                if len(ns) > count:
+                    bad.append(f"rdump --split {count}: part {os.path.basename(p)} holds {len(ns)} records")
+                got += ns
+            if got != list(range(total)):
+                missing = [i for i in range(total) if i not in got]
+                bad.append(f"rdump -w part.{ext} --split {count} --suffix-length {slen} over {total} records: the parts hold {len(got)} records in {len(parts)} files, missing {missing[:8]}")
+    return bad
+
+
 def _csv_compare(text, exp):
     """walk the CSV output along the expected records: a header row whenever the (projected) descriptor changes, then one data row
     per record whose simple cells equal the expected values. Returns (problem or None, None)."""
@@ -663,6 +724,7 @@ def obligations(tier, seed):
     n_opts = 11
     for lo in range(0, n_opts, 2):
         obs.append(ob(f"S2-e2e/{lo}", "side", "e2e", {"which": f"{lo}:{lo + 2}"}, timeout=300, group="S2-e2e"))
+    obs.append(ob("S3-e2e-split", "side", "e2e_split", {}, timeout=300, group="S3-e2e-split"))
     return obs
 
 
@@ -674,6 +736,9 @@ def replay(res):
     if "S1-uri" in gid:
         out = uri_table()
         return {"reproduced": not out["ok"], "key": "C16/uri-table", "what": out["detail"][:500]}
+    if "S3-e2e-split" in gid:
+        bad = _e2e_split()
+        return {"reproduced": bool(bad), "key": "C16/e2e-split", "what": "; ".join(bad[:2])[:700], "input": {}}
     if "S2-e2e" in gid:
         bad = _e2e(res["args"].get("which", "all"))
         other = [b for b in bad if not b.startswith("[K4]")]
